@@ -1,4 +1,5 @@
 //! unit: u11
+//! novaclemmas: lemmas live in nested modules (probe scope); their preconditions are index ranges only
 //! properties: C11
 //! note: confirmation thresholds of both OnchainEventEntry types (channelmonitor.rs, onchaintx.rs)
 //! trusted: assume_specification for core::cmp::max (its std definition); foreign payload types (Txid, BlockHash, Transaction, HTLCSource, PaymentHash, PaymentPreimage, Amount, OutPoint, TxOut) are opaque structs; SpendableOutputDescriptor / DelayedPaymentOutputDescriptor are skeletons keeping the fields the code reads
